@@ -5,7 +5,11 @@ Open Scope N_scope.
 
 Inductive waction := WWrite (off : N) (bs : bytes) | WSync.
 Inductive wres := WOk | WErrSealed | WErrTooBig | WErrNonMono | WErrShortBuf | WErrIO.
-Inductive wfault := FNone | FWrite | FSync.
+(* injected I/O error of the commit: none; WriteAt fails and writes nothing;
+   WriteAt is SHORT: it writes the first half of the buffer (rounded down) and
+   returns an error (io.EOF with n < len, admissible for an io.WriterAt); Sync
+   fails after the complete write *)
+Inductive wfault := FNone | FWrite | FWriteShort | FSync.
 
 Record wstate := {
   w_info : seginfo;
@@ -64,6 +68,7 @@ Definition append_commit (w : wstate) (f : wfault) : option wstate * list wactio
   let buf := w_buf w ++ commit_frame (w_crc w) in
   match f with
   | FWrite => (None, [])
+  | FWriteShort => (None, [WWrite (w_off w) (firstn (length buf / 2) buf)])
   | FSync => (None, [WWrite (w_off w) buf; WSync])
   | FNone =>
       let w' := {| w_info := w_info w; w_buf := []; w_crc := 0;
